@@ -33,5 +33,6 @@ package meterpb
 //@   track WithUpdatePaths
 //@   track UpdateMeterReading
 //@   ensures [one-write] calls(UpdateMeterReading) == old(calls(UpdateMeterReading)) + 1 && res == lastcall(UpdateMeterReading, 0) && err == lastcall(UpdateMeterReading, 1)
-//@   ensures [masked] calls(WithUpdatePaths) == old(calls(WithUpdatePaths)) + 1 && len(lastarg(WithUpdatePaths, 0)) == 2 && lastargelem(WithUpdatePaths, 0, 0) == "usage" && lastargelem(WithUpdatePaths, 0, 1) == "end_time"
+//@   ensures [masked] calls(WithUpdatePaths) == old(calls(WithUpdatePaths)) + 1 && len(lastarg(WithUpdatePaths, 0)) == 2 &&
+//@   |   ((lastargelem(WithUpdatePaths, 0, 0) == "usage" && lastargelem(WithUpdatePaths, 0, 1) == "end_time") || (lastargelem(WithUpdatePaths, 0, 0) == "end_time" && lastargelem(WithUpdatePaths, 0, 1) == "usage"))
 //@   replay MeterRecordKeepsStart()
